@@ -180,7 +180,9 @@ PROPS = {
                     "through every emitter), to_vec(_custom) (the Vec holds exactly the text) and to_string(_custom) are under the same contract. "
                     "`impl Display for Value`: the io::Write adaptor around the fmt::Formatter (value/mod.rs WriterFormatter::write / flush) is extracted and verified as an "
                     "implementor of the same sink contract - Ok(n) means exactly the first n bytes of the buffer reached the Formatter, an error means none did - so "
-                    "everything to_writer guarantees for a sink holds for Display's sink.",
+                    "everything to_writer guarantees for a sink holds for Display's sink. print::Options: Options::default() / Options::elisp() equal the documented option sets "
+                    "(popts_default / popts_elisp - the set the default printer is verified at, so `the customised printer with default options agrees with the default printer` "
+                    "is the same text equation) and each with_* builder sets exactly its own field.",
         assumptions=[
             "std::io::Write contract as documented (sink model inc/sink.vrs); itoa/ryu output are uninterpreted texts dec_int / ryu_text",
             "write!(w, \"LIT{:x}\", n) is replaced by an assumed all-or-prefix emitter of LIT ++ lower_hex(n) (rule R8)",
